@@ -629,6 +629,53 @@ func (cb1) Verify(wallet.Address, *channel.State, wallet.Sig) (bool, error) {
 func (cb1) NewAsset() channel.Asset          { return &simchannel.Asset{} }
 func (cb1) NewAppID() (channel.AppID, error) { return nil, errors.New("backend 1 has no apps") }
 
+// cb2 is a channel backend nobody's address belongs to; it computes a constant (wrong) ID.
+type cb2 struct{ cb1 }
+
+func (cb2) CalcID(*channel.Params) (channel.ID, error) {
+	var id channel.ID
+	for i := range id {
+		id[i] = 0xEE
+	}
+	return id, nil
+}
+
+// foreignBackend: a registered backend that no participant of the channel has an address for
+// has no say in the channel's ID. 200 calculations per parameter set, after the registration.
+func (c *c17) foreignBackend(bases []pBase) {
+	res := c.res
+	type ref struct {
+		b  pBase
+		m  pMember
+		id channel.ID
+	}
+	var refs []ref
+	for i, b := range bases {
+		if i >= 3 {
+			break
+		}
+		m := pCatalogue(b)[0]
+		refs = append(refs, ref{b, m, m.p.ID()})
+	}
+	channel.SetBackend(cb2{}, 2)
+	for _, r := range refs {
+		for k := 0; k < 200; k++ {
+			res.Count("evaluations", 1)
+			res.Count("foreign_backend_cases", 1)
+			id, err := channel.CalcID(r.m.p)
+			var id2 channel.ID
+			if p2, err2 := r.m.spec.build(); err2 == nil {
+				id2 = p2.ID()
+			}
+			if err != nil || id != r.id || id2 != r.id {
+				res.Violate("C17", "C17:id-unstable:foreign-backend-registered", fmt.Sprintf("[%s, calculation %d] with a third channel backend registered (no participant has an address for it) CalcID gives %x (err=%v), NewParams with the same values %x; the ID of these parameters is %x", r.b.name(), k, id, err, id2, r.id),
+					replay{Harness: "values", Prop: "C17", Check: "foreign-backend"})
+				return
+			}
+		}
+	}
+}
+
 var backend1 bool
 
 func registerBackend1() {
@@ -727,6 +774,7 @@ func runC17(t *testing.T, res *report.Result) {
 		c.constraint(cc)
 	}
 	c.twoBackend()
+	c.foreignBackend(bases)
 	res.Extra["exhaustive"] = true
 	res.Extra["bound"] = fmt.Sprintf("%d base parameter sets (2-3 participants x app none/A/B x 4 flag combinations x nonce 0x1234/0/2^256-1 x duration 60/1/2^64-1) x every single-field change; all ordered pairs per base plus ID<->fields bijection over all %d members; %d constraint cases; %d ID calculations of valid parameter sets, each directly after a failed one (5 fault kinds, 3 rounds)",
 		len(bases), members, len(constraintCases()), res.Counters["after_fault_cases"])
@@ -745,6 +793,8 @@ func replayC17(t *testing.T, res *report.Result, rp replay) {
 		}
 	case "twobackend":
 		c.twoBackend()
+	case "foreign-backend":
+		c.foreignBackend(pBases(res.Thorough()))
 	case "after-fault":
 		c.afterFault(pBases(res.Thorough()))
 	case "pair", "stable":
